@@ -293,6 +293,16 @@ func renewRelease(r *Run) {
 		}
 		offer, _ := dhcpv4.NewReplyFromRequest(disc, dhcpv4.WithMessageType(dhcpv4.MessageTypeOffer), dhcpv4.WithYourIP(offYi), dhcpv4.WithOption(dhcpv4.OptServerIdentifier(sid)))
 		ack, _ := dhcpv4.NewReplyFromRequest(disc, dhcpv4.WithMessageType(dhcpv4.MessageTypeAck), dhcpv4.WithYourIP(yi), dhcpv4.WithOption(dhcpv4.OptServerIdentifier(sid)))
+		// siaddr is the next-server (bootstrap) address, not the DHCP server: any value, in OFFER and ACK
+		if r.Rng.Intn(2) == 0 {
+			ack.ServerIPAddr = net.IP{192, 0, 2, byte(1 + r.Rng.Intn(250))}
+		}
+		if r.Rng.Intn(2) == 0 {
+			offer.ServerIPAddr = net.IP{198, 51, 100, byte(1 + r.Rng.Intn(250))}
+		}
+		if r.Rng.Intn(3) == 0 {
+			ack.GatewayIPAddr = net.IP{203, 0, 113, 7}
+		}
 		lease := &nclient4.Lease{Offer: offer, ACK: ack}
 		c.Renew(context.Background(), lease)
 		if err := c.Release(lease); err != nil {
